@@ -12,13 +12,14 @@ from vmc import refmodel, space, vsat
 from vmc.engine import guarded
 
 ID = 'C05'
-ALPHAS = {'FULL': space.FULL, 'FULL_NO3': space.FULL_NO3, 'S4': space.S4 + space.U}
+KO = (('ALWAYS_TRUE', 1), ('ALWAYS_FALSE', 2), ('ALWAYS_TRUE', 2), ('ALWAYS_FALSE', 1))
+ALPHAS = {'KO': KO + space.alphabet('AND', 'GT', 'OR', 'NOT'),'FULL': space.FULL, 'FULL_NO3': space.FULL_NO3, 'S4': space.S4 + space.U}
 
 
 def plan(tier):
     t = []
     fams = [(0, 1, 'FULL', 0), (1, 1, 'FULL', 0), (1, 2, 'FULL', 1), (2, 1, 'FULL', 1),
-            (2, 2, 'FULL', 1), (3, 1, 'FULL', 1), (2, 1, 'S4', 1)]
+            (2, 2, 'FULL', 1), (3, 1, 'FULL', 1), (2, 1, 'S4', 1), (2, 2, 'KO', 1), (2, 3, 'KO', 2)]  # KO: constants that carry operands
     if tier == 'thorough':
         fams += [(3, 2, 'FULL', 1), (2, 3, 'FULL_NO3', 2), (3, 1, 'S4', 1), (1, 3, 'FULL', 2)]
     for lo in range(0, 64, 4):
@@ -146,7 +147,15 @@ def check_one(n, gates, outs, acc, c=None, net0=None, ref=None, sels=None):
         case = lambda: {**space.spec_json(n, gates, outs), 'selection': sel}  # noqa: E731
         acc.transitions += 1
         acc.traces += 1
-        ok, cnf = guarded(acc, 'tseytin_transformation', case, tseytin_transformation, c, sel)
+        sel_arg = None if sel is None else list(sel)  # the caller's own list object, used for two calls in a row
+        ok, cnf = guarded(acc, 'tseytin_transformation', case, tseytin_transformation, c, sel_arg)
+        if ok and sel is not None:
+            if sel_arg != list(sel):
+                acc.violation('tseytin_transformation/modifies-the-selection-list', case, f'{sel_arg}')
+            else:
+                ok2, cnf_again = guarded(acc, 'tseytin_transformation', case, tseytin_transformation, c, sel_arg)
+                if ok2 and (cnf_again.get_raw() != cnf.get_raw() or sel_arg != list(sel)):
+                    acc.violation('tseytin_transformation/second-call-with-the-same-list-differs', case, '')
         if not ok:
             continue
         sel_labels = olabs if sel is None else [olabs[i] for i in sel]
